@@ -9,5 +9,5 @@ CONSTANTS
   D16_TimeoutDropsPartials = FALSE
   D17_SkipSurvivesTimeout = FALSE
   D20_BackslashNIsEnd = FALSE
-INVARIANTS TypeOK CutInRange BufBounded TimeoutOnlyWhileCollapsed StatementOK ResidualOK DevSwitched
+INVARIANTS TypeOK NoPanic CutInRange BufBounded TimeoutOnlyWhileCollapsed StatementOK ResidualOK DevSwitched
 CHECK_DEADLOCK FALSE
